@@ -216,16 +216,28 @@ def run(chk, prog):
             chk.anchor_missing("R1", ED + "build_" + role)
             continue
         chk.analysed_body(bctx.body)
-        ret = None
+        # every Ok(..) the builder can return carries them (evaluated per return site with the
+        # definitions that reach it: an early `return Ok(snapshot)` above the assignment does not)
+        rets = []
         for b in bctx.body.blocks:
+            if b.cleanup:
+                continue
             for s in b.stmts:
                 if s.k == "assign" and s.place.local == 0 and s.rv.k == "agg" and s.rv.j.get("variant") == "Ok":
-                    ret = s.rv.ops[0]
-        og = bctx.origins.of_operand(ret, fields=(("n", "_extra"),)) if ret is not None else set()
+                    rets.append((b.idx, s))
         n += 1
-        chk.require(any(self_field(o, role + "_extra") for o in og), "R1", bctx.fn, "keeps:_extra",
+        bad_ret = None
+        og = set()
+        for rb, s in rets:
+            og = bctx.origins.of_operand(s.rv.ops[0], fields=(("n", "_extra"),), at=rb)
+            if not any(self_field(o, role + "_extra") for o in og):
+                bad_ret = (rb, s, og)
+                break
+        chk.require(bool(rets) and bad_ret is None, "R1", bctx.fn, "keeps:_extra",
                     "the %s built by the editor does not carry the unknown top-level members loaded from the existing "
-                    "%s.json (its _extra originates from %s)" % (role, role, sorted(map(repr, og))[:4]))
+                    "%s.json on every path (a returned value's _extra originates from %s)"
+                    % (role, role, sorted(map(repr, bad_ret[2] if bad_ret else og))[:4]),
+                    site_of(bad_ret[1].sp) if bad_ret else None)
         unconditional(chk, bctx, "R1", "always-keeps:_extra", role + "_extra")
         adt = prog.adts.get(adt_path)
         if adt is not None:
